@@ -55,6 +55,11 @@ CHECKS = {
         text="From reference encodings of values of every generated struct type: every proper prefix, every embedded length inflated, every member / nested member / first element / first map value replaced by each inadmissible wire type; the real generated decoder may fail, or succeed only with exactly the value of the complete fields as determined by the independent strict parser (missing members optional and at default); for type substitutions only failure is accepted. TUP attribute sets and single primitive fields likewise. Children carry an address-space limit and a write-ahead log so that one fatal input does not end the monitor.",
         note="Damage kinds are enumerated exhaustively per encoding; encodings are sampled (4 values per type quick, 40 thorough). Panics / over-allocation caused by damaged input are counted here and judged under C05.",
         design="DESIGN.md §4 C06"),
+    "C05": dict(
+        technique="runtime monitor: process-level crash/allocation/CPU watchers over hostile inputs in child processes (address-space limit, write-ahead case log), recover()-based panic capture inside the child",
+        text="Structure-aware hostile inputs (every embedded length set to -1/-2^31/2^31-1/remaining+1/2^24, every head's wire type swapped, truncations, list counts beyond fixed arrays, nesting bombs of StructBegin/LIST/MAP/mixed up to the 10 MiB maximum packet, random bytes, hostile TUP sets, 0..4-byte frames) are fed to ReadFrom/ReadBlock of every generated struct, UniAttribute.Decode, ResponseUnpack, Protocol.Invoke and InvokeTimeout. A recovered panic, allocation beyond 4096*len+1MiB, CPU beyond 5s/MiB+5s, or the death/hang of the child (attributed to the input logged ahead) is a violation.",
+        note="Not a coverage-guided fuzzer; reach comes from mutating encodings of every schema. A clean run is 'no crash on K inputs', not memory safety. The live client receive goroutine (AdapterProxy.Recv) is exercised by the RPC checks, not here.",
+        design="DESIGN.md §4 C05"),
 }
 
 NOT_BUILT_REASON = "check not built yet in this session (runtime-monitoring design exists in DESIGN.md §4; machinery in progress) — not claimed until its monitor runs silent on the unchanged tree"
